@@ -104,10 +104,32 @@ fn process(rx: mpsc::Receiver<(u32, Vec<u8>)>) {
                 inject(kind, &mut canaries);
             }
         }
+        let started = std::time::Instant::now();
         let outcome = match ENTRIES.get(id as usize) {
             Some(e) => call(e, &bytes),
             None => "err:outer-unknown-entry".to_string(),
         };
+        // thread echo: every other delivery is repeated on a brand-new thread of this process (no
+        // thread-local history at all); the complete outcome must be the one this long-lived
+        // thread produced. (The elapsed time only decides whether the echo is skipped for slow
+        // calls, never what is reported for a call that is echoed.)
+        let mut echo: Option<String> = None;
+        if !bare && n % 2 == 0 && !outcome.starts_with("panic:") && started.elapsed() < Duration::from_millis(1500) {
+            if let Some(e) = ENTRIES.get(id as usize) {
+                let b2 = bytes.clone();
+                let again = std::thread::Builder::new()
+                    .name("echo".into())
+                    .stack_size(STACK_BYTES)
+                    .spawn(move || call(e, &b2))
+                    .ok()
+                    .and_then(|h| h.join().ok());
+                if let Some(a) = again {
+                    if a != outcome {
+                        echo = Some(format!("thread_echo_diff:{:016x}", crate::entries::fnv(a.as_bytes())));
+                    }
+                }
+            }
+        }
         let class = if let Some(s) = outcome.strip_prefix("ok:") {
             let _ = s;
             "ok".to_string()
@@ -115,7 +137,11 @@ fn process(rx: mpsc::Receiver<(u32, Vec<u8>)>) {
             outcome.clone()
         };
         let check = !outcome.starts_with("ok:") || n % CANARY_EVERY == 0;
-        let canary = if check { canaries.battery() } else { "canary_skip".to_string() };
+        let canary = match echo {
+            Some(e) => e,
+            None if check => canaries.battery(),
+            None => "canary_skip".to_string(),
+        };
         let mut o = out.lock();
         // the digest of the complete outcome lets the supervisor compare this call with the same
         // input delivered to a fresh process (history independence)
